@@ -24,9 +24,12 @@ def c02_tx_no_mint(ctx, v):
     arithmetic (no minting through 64-bit wrap-around)."""
     gtf = ctx.body(r"transaction::<impl at [^>]*>::generate_total_fees$")
     val = ctx.body(r"transaction::<impl at [^>]*>::validate$")
-    sizes = [(1, 2), (2, 2), (1, 3)] if ctx.tier == "quick" else [(a, b) for a in (1, 2, 3) for b in (1, 2, 3, 4)]
+    sizes = [(1, 2), (2, 2), (1, 3)] if ctx.tier == "quick" else [(a, b) for a in (1, 2, 3) for b in (1, 2, 3)]
+    import os
+    if os.environ.get("C02_SIZES"):
+        sizes = [tuple(int(x) for x in p.split("/")) for p in os.environ["C02_SIZES"].split(",")]
     for nin, nout in sizes:
-        ex = ctx.executor(loop_bound=max(nin, nout) + 3, inline="auto", max_paths=4000)
+        ex = ctx.executor(loop_bound=max(nin, nout) + 3, inline="auto", max_paths=4000 if ctx.tier == "quick" else 40000)
         L.install_slip_key_model(ctx, ex)
         tx, ins, outs, ttype, pre = _tx(ctx, ex, nin, nout)
         user = z3.Or(*[L.enum_is(ctx, ttype, "TransactionType", t) for t in ("Normal", "GoldenTicket", "Vip")])
